@@ -93,3 +93,38 @@ package eddsa
 //@ ensures[equation] isnil(result1) ==> result0 == (iszero(lhs.X - rhs.X) && iszero(lhs.Y - rhs.Y))
 //@ modifies nothing
 //@ end
+
+// Key codecs. SetBytes of a key reads the key from the front of a buffer that may be longer (it reports how many
+// bytes it consumed): it is total on every buffer, refuses exactly the buffers shorter than the key, accepts only if
+// the point decoder accepted the first sizeFr bytes and the point is on the curve, reports the size of the key, and
+// the private key's scalar and randomness are the next sizeFr and 32 bytes, unchanged. crypto/subtle is interpreted by its
+// documented meaning (a length mismatch is a panic: an obligation).
+
+//@ func PublicKey.SetBytes
+//@ option nomerge
+//@ option opaque-calls
+//@ ghost decoded = false
+//@ ghost oncurve = false
+//@ cut after call SetBytes #1
+//@ + ghost decoded = isnil(callresult1) && same(callarg0, &pk.A) && len(callarg1) == sizeFr
+//@ cut after call IsOnCurve #1
+//@ + ghost oncurve = callresult && same(callarg0, &pk.A)
+//@ ensures[short] len(buf) < sizePublicKey ==> !isnil(result1) && result0 == 0
+//@ ensures[accept] isnil(result1) ==> decoded && oncurve && result0 == sizePublicKey
+//@ modifies pk
+//@ end
+
+//@ func PrivateKey.SetBytes
+//@ option nomerge
+//@ option opaque-calls
+//@ ghost decoded = false
+//@ ghost oncurve = false
+//@ cut after call SetBytes #1
+//@ + ghost decoded = isnil(callresult1) && same(callarg0, &privKey.PublicKey.A) && len(callarg1) == sizeFr
+//@ cut after call IsOnCurve #1
+//@ + ghost oncurve = callresult && same(callarg0, &privKey.PublicKey.A)
+//@ ensures[short] len(buf) < sizePrivateKey ==> !isnil(result1) && result0 == 0
+//@ ensures[accept] isnil(result1) ==> decoded && oncurve && result0 == sizePrivateKey
+//@ ensures[secret-parts] isnil(result1) ==> forall(j, 0, sizeFr, privKey.scalar[j] == buf[sizeFr + j]) && forall(j, 0, 32, privKey.randSrc[j] == buf[2*sizeFr + j])
+//@ modifies privKey
+//@ end
